@@ -53,7 +53,7 @@ DA_TRIAGE = {
     ("IfElseNode.convert", "dummy_target"): "assigned iff some branch body is None, used only for a branch whose body is None",
 }
 FALLOFF_TRIAGE = {
-    "DFState.__getitem__": "Optional by contract: every caller tests the result",
+    "DFState.__getitem__": "Optional by contract; that the results are None-tested before use is decided by C18.q (it was an unchecked belief here until F-52)",
     "RegexCharClass.isdisjoint": "isinstance dispatch over the two class kinds (total)",
     "RegexCharClass.split": "isinstance dispatch over the two class kinds (total)",
     "InvertedRegexCharClass.isdisjoint": "isinstance dispatch over the two class kinds (total)",
@@ -1028,3 +1028,87 @@ def run(ctx, rep, tier):
     _empty_statement_sequences(ctx, rep, tier)
     from .shared import delegate
     delegate(ctx, rep, tier, "C20", ("C20.f",), "C18.p", "a diagnostic never reads the debug data of a dead object that owned the cited object's address (it may not render: position outside the current source)")
+
+
+# ---------------------------------------------------------------------------------------------------------------- C18.q
+TRANSITION_ATTRS = {"error_handling", "target", "is_fallthrough", "actions", "on_values", "fallthrough", "handles_else", "attach", "to", "copy"}
+# subscripts whose receiver is a container, not a state (the element exists by construction of the loop / index)
+NOT_A_STATE_LOOKUP = re.compile(r"(transitions|actions|children|sub_dfas|sub_matches|args|states|values|chars|on_values|handlers|_collection|_refmap|targets|frontier|backref\w*)\b(\(\))?$|^(sys|os)\.")
+
+
+def _optional_transition_results(ctx, rep, tier):
+    """C18.q: DFState.__getitem__ answers None when the state has neither a transition for the symbol(s) nor an Else (FALLOFF_TRIAGE used to
+    *assert* that every caller tests this - it did not hold). A value obtained from a subscript and then used as a transition (one of the
+    transition attributes is read from it) must be None-tested on the way: `if v is None`/`if not v` leaving the block or the iteration,
+    `v is not None and ...`, `if v:` / `if v and ...` around the use, or the subscript is an assignment just made (`s[k] = t; s[k].x`)."""
+    from ..guards import enclosing_conditions
+    model = ctx.model
+    rep.rule("C18.q", "a transition obtained from a state lookup (which may answer None) is None-tested before one of its attributes is read")
+    n = 0
+    for q, f in pipeline(model).items():
+        own = list(walk_no_nested(f))
+        # variables assigned from a subscript whose receiver is not a known container
+        assigned = {}
+        for node in own:
+            if isinstance(node, ast.Assign) and len(node.targets) == 1 and isinstance(node.targets[0], ast.Name) and isinstance(node.value, ast.Subscript):
+                recv = ast.unparse(node.value.value)
+                if not NOT_A_STATE_LOOKUP.search(recv) and not isinstance(node.value.slice, ast.Slice) and not (isinstance(node.value.slice, ast.Constant) and isinstance(node.value.slice.value, int)):
+                    assigned.setdefault(node.targets[0].id, []).append(node)
+        for node in own:
+            if not (isinstance(node, ast.Attribute) and node.attr in TRANSITION_ATTRS and isinstance(node.value, ast.Name) and node.value.id in assigned and isinstance(node.value.ctx, ast.Load)):
+                continue
+            var = node.value.id
+            srcs = [a for a in assigned[var] if a.lineno <= node.lineno]
+            if not srcs:
+                continue
+            src = max(srcs, key=lambda a: a.lineno)
+            # a later re-assignment from something else between src and the use? (keep simple: nearest preceding assignment of any kind)
+            others = [x for x in own if isinstance(x, (ast.Assign, ast.For)) and src.lineno < x.lineno <= node.lineno and
+                      any(isinstance(t, ast.Name) and t.id == var for t in ast.walk(x.targets[0] if isinstance(x, ast.Assign) else x.target))]
+            if others:
+                continue
+            n += 1
+            guarded = None
+            for test, pol in enclosing_conditions(model, node, f):
+                parts = [p.strip("() ") for p in re.split(r"\band\b", test)]
+                if pol and (var in parts or f"{var} is not None" in parts):
+                    guarded = f"under `if {test}`"
+                if not pol and (test.strip() == f"{var} is None" or test.strip() == f"not {var}"):
+                    guarded = f"in the else of `if {test}`"
+            # same boolean expression: `v is not None and v.x` / `v and v.x`
+            x = node
+            while x in model.parents and guarded is None and not isinstance(x, ast.stmt):
+                x = model.parents[x]
+                if isinstance(x, ast.BoolOp) and isinstance(x.op, ast.And):
+                    before = [ast.unparse(v) for v in x.values if v.lineno < node.lineno or (v.lineno == node.lineno and v.col_offset < node.col_offset)]
+                    if f"{var} is not None" in before or var in before:
+                        guarded = "after `is not None and`"
+                if isinstance(x, ast.BoolOp) and isinstance(x.op, ast.Or):
+                    before = [ast.unparse(v) for v in x.values if (v.lineno, v.col_offset) < (node.lineno, node.col_offset)]
+                    if f"{var} is None" in before or f"not {var}" in before:
+                        guarded = "after `is None or`"
+            # an earlier statement in an enclosing block that leaves when v is None
+            x = node
+            while x in model.parents and guarded is None and x is not f:
+                child, x = x, model.parents[x]
+                for fld in ("body", "orelse", "finalbody"):
+                    lst = getattr(x, fld, None)
+                    if isinstance(lst, list) and child in lst:
+                        for st in lst[:lst.index(child)]:
+                            if isinstance(st, ast.If) and st.lineno >= src.lineno and isinstance(st.body[-1], (ast.Continue, ast.Return, ast.Raise, ast.Break)):
+                                disj = [ast.unparse(v) for v in st.test.values] if isinstance(st.test, ast.BoolOp) and isinstance(st.test.op, ast.Or) else [ast.unparse(st.test)]
+                                if f"{var} is None" in disj or f"not {var}" in disj:
+                                    guarded = f"after `if {ast.unparse(st.test)[:50]}: {type(st.body[-1]).__name__.lower()}`"
+            rep.check(guarded is not None, "C18.q", q, f"`{var} = {ast.unparse(src.value)[:40]}` then `{var}.{node.attr}`: {guarded or 'unguarded'}",
+                      f"`{var}.{node.attr}` is read from the result of a state lookup `{ast.unparse(src.value)[:50]}` that answers None when the state has no transition for it: AttributeError "
+                      "(e.g. while the ambiguity report visits a branch of an if that consists of actions only)", line=node.lineno)
+    if n < 6:
+        raise AnalysisError(f"C18.q: only {n} uses of looked-up transitions found (floor 6)")
+
+
+_run7 = run
+
+
+def run(ctx, rep, tier):
+    _run7(ctx, rep, tier)
+    _optional_transition_results(ctx, rep, tier)
